@@ -108,6 +108,12 @@ func H_C05_end() {
 		vTag("est-with-bad-far")
 		fars[1].action = 0 // parseFAR refuses a zero Apply Action: rejected after PDRs were parsed
 	}
+	if vBool("tolerated_bad_sdf_filter") {
+		// a flow description parsePDR tolerates (the PDR is accepted without the
+		// filter): nothing the PDR acquired may be given back on that account
+		vTag("tolerated-bad-filter")
+		pdrs[0].sdf = "permit out ip from 10.1.0.0/33 to assigned"
+	}
 	e.vSend(vEstablishment(1, 0xc0ffee, "cp.test", pdrs, fars, qers))
 	r, ok := e.vLastReply().(*message.SessionEstablishmentResponse)
 	vAssert("est-answered", ok && len(e.conn.writes) == 1)
@@ -120,6 +126,16 @@ func H_C05_end() {
 	fs, _ := r.UPFSEID.FSEID()
 	up := fs.SEID
 	vCover("est-accepted")
+	if alloc && pdrs[0].ueChoose {
+		// a live session holds exactly its one address
+		vAssert("est-accepted:session-holds-its-ue-address", e.u.ippool.holds(up))
+		vAssert("est-accepted:exactly-one-address-taken", len(e.u.ippool.freePool) == poolFree-1 && len(e.u.ippool.inventory) == 1)
+		// ... and every PDR of the session was given that one address (sticky)
+		held := ip2int(e.u.ippool.inventory[up])
+		for _, p := range e.pc.store.GetAllSessions()[0].pdrs {
+			vAssert("est-accepted:every-pdr-carries-the-address-the-session-holds", p.ueAddress == held)
+		}
+	}
 
 	if vBool("modify") {
 		vTag("modified")
@@ -128,10 +144,29 @@ func H_C05_end() {
 		np := vPDRSpec{uplink: true, id: 3, prec: 50, teid: 0x4321, n3: [4]byte{198, 18, 0, 1}, ue: [4]byte{10, 250, 0, 5}, farID: 1, qerIDs: []uint32{1, 4},
 			choose: vBool("mod_choose_fteid")}
 		ies := []*ie.IE{np.create(), u.update()}
-		if vBool("mod_remove") {
+		switch vChoose("mod_remove", 4) {
+		case 1:
 			ies = append(ies, ie.NewRemovePDR(ie.NewPDRID(2)), ie.NewRemoveQER(ie.NewQERID(2)))
+		case 2: // the access PDR - the one that may carry a UPF-chosen TEID - goes
+			ies = append(ies, ie.NewRemovePDR(ie.NewPDRID(1)), ie.NewRemoveQER(ie.NewQERID(1)))
+		case 3: // ... together with a Remove FAR the session does not have: the request is refused as a whole
+			ies = append(ies, ie.NewRemovePDR(ie.NewPDRID(1)), ie.NewRemoveFAR(ie.NewFARID(77)))
 		}
 		e.vSend(message.NewSessionModificationRequest(0, 0, up, 2, 0, ies...))
+		if m, okm := e.vLastReply().(*message.SessionModificationResponse); okm && vCauseOf(m.Cause) != ie.CauseRequestAccepted {
+			// a refused modification changes nothing: what the session holds stays held
+			vCover("mod-refused")
+			ss := e.pc.store.GetAllSessions()
+			vAssert("mod-refused:session-still-stored", len(ss) == 1)
+			for _, p := range ss[0].pdrs {
+				if p.UPAllocateFteid {
+					vAssert("mod-refused:chosen-teid-still-marked", e.u.fteidGenerator.IsAllocated(p.tunnelTEID))
+				}
+			}
+			if alloc && pdrs[0].ueChoose {
+				vAssert("mod-refused:session-keeps-its-ue-address", e.u.ippool.holds(up))
+			}
+		}
 	}
 
 	switch vChoose("end", 4) {
